@@ -378,7 +378,7 @@ async def validate_data_element_valuepool(
     # Case: segment_requirement is required, but no possible values are appended
     fc_validation_result: bool = True  # by default Format Constraints are not evaluated for ValuePools
     if not possible_values:
-        requirement_validation_data_element is RequirementValidationValue.IS_FORBIDDEN
+        requirement_validation_data_element = RequirementValidationValue.IS_FORBIDDEN
         hints = None
     else:
         if data_element.entered_input in possible_values:
